@@ -215,6 +215,7 @@ func checkC07(p *Program, r *Report) {
 		c08Scope(p, r, p.Reachable(roots), "C07.bounds")
 		r.Floor("C07.bounds", 10)
 	}
+	radixBufferRule(p, r, "C07.exact")
 	if radixWrapRule(p, r, "C07.exact", []string{"base58", "bech32"}) == 0 {
 		r.Note("C07.exact: no fixed-width positional accumulator in base58 / bech32 (decoding uses math/big)")
 	}
@@ -255,6 +256,8 @@ func checkC07(p *Program, r *Report) {
 		}
 	}
 	canonicalInput(p, r, "C07.strict", roots)
+	// round 6 (C07-agent6-m1): a hand-written case folding touches upper-case letters only (c|0x20 on every byte below 'a' maps @[\\]^_ of a human-readable part onto `{|}~DEL)
+	asciiFoldExact(p, r, "C07.strict", roots)
 	base58ByteLookup(p, r, "C07.tables")
 }
 
@@ -1032,4 +1035,114 @@ func c07strict(p *Program, r *Report, fns map[string]*ssa.Function) {
 		r.Add("C07.strict", FnName(cb), "more than four leftover bits reject when not padding", cb.Pos(), tooManyRej, "leftover count > 4 leads only to the error return")
 	}
 	r.Floor("C07.strict", 7)
+}
+
+// radixBufferRule (round 6: C05-agent6-m3, C06-agent6-m2, C06-agent6-m3).  A big.Int-free radix conversion writes its
+// digits into a buffer of FIXED length n·K1/K2 + c.  For unbounded n that is enough only if K1/K2 is at least the
+// exact ratio of the digit sizes: log 58 / log 256 = 0.73219… bytes per base-58 digit when decoding, log 256 / log 58 =
+// 1.36565… digits per byte when encoding.  (Bitcoin Core uses 733/1000 and 138/100.)  73/100 and 136/100 look right and
+// are one digit short from 63 resp. 36 symbols on — the carry out of the top position is then dropped.  A capacity hint
+// (make(T, 0, n·136/100) + append) is not a fixed length and is not subject to this.  Decided for every make() in the
+// packages' functions whose length is a non-constant quotient form; which ratio applies follows from whether the
+// function is reachable from the decoding or the encoding entry point (both: the larger).
+func radixBufferRule(p *Program, r *Report, rule string) int {
+	enc, dec := p.Func("base58", "Encode"), p.Func("base58", "Decode")
+	if enc == nil || dec == nil {
+		r.Unresolved(rule, "base58.Encode / base58.Decode")
+		return 0
+	}
+	inEnc, inDec := map[*ssa.Function]bool{}, map[*ssa.Function]bool{}
+	for _, f := range p.Reachable([]*ssa.Function{enc}) {
+		inEnc[f] = true
+	}
+	for _, f := range p.Reachable([]*ssa.Function{dec}) {
+		inDec[f] = true
+	}
+	// K1·den ≥ K2·num  ⇔  K1/K2 ≥ num/den, with num/den a rational just ABOVE nothing: compare in floating point
+	// against the exact irrational with a margin-free test (the candidates are small integers; no tie is possible
+	// because the ratio is irrational)
+	const decRatio = 0.7321969544112429 // ln 58 / ln 256
+	const encRatio = 1.3656582196497152 // ln 256 / ln 58
+	n := 0
+	for _, fn := range p.Funcs {
+		if !inEnc[fn] && !inDec[fn] {
+			continue
+		}
+		if fn.Pkg != p.Pkg("base58") {
+			continue
+		}
+		for _, b := range fn.Blocks {
+			for _, in := range b.Instrs {
+				ms, ok := in.(*ssa.MakeSlice)
+				if !ok {
+					continue
+				}
+				if _, isK := constInt(ms.Len); isK {
+					continue
+				}
+				k1, k2, form := ratioForm(ms.Len)
+				if !form {
+					continue
+				}
+				n++
+				need := 0.0
+				dir := ""
+				if inDec[fn] {
+					need, dir = decRatio, "bytes per base-58 digit (decoding)"
+				}
+				if inEnc[fn] && encRatio > need {
+					need, dir = encRatio, "base-58 digits per byte (encoding)"
+				}
+				got := float64(k1) / float64(k2)
+				r.Add(rule, FnName(fn), fmt.Sprintf("fixed-length digit buffer %s is long enough for every input", exprString(ms.Len)), ms.Pos(), got >= need,
+					fmt.Sprintf("length grows by %d/%d = %.4f per input symbol; %s need %.5f", k1, k2, got, dir, need))
+			}
+		}
+	}
+	return n
+}
+
+// ratioForm: v = (E·K1)/K2 [+ c]  (or E·K1/K2 spelled with the constant on either side); K2 = 1 for a plain product.
+func ratioForm(v ssa.Value) (k1, k2 int64, ok bool) {
+	for {
+		switch x := v.(type) {
+		case *ssa.Convert:
+			v = x.X
+			continue
+		case *ssa.ChangeType:
+			v = x.X
+			continue
+		case *ssa.BinOp:
+			if x.Op == token.ADD || x.Op == token.SUB {
+				if _, isK := constInt(x.Y); isK {
+					v = x.X
+					continue
+				}
+				if _, isK := constInt(x.X); isK && x.Op == token.ADD {
+					v = x.Y
+					continue
+				}
+			}
+		}
+		break
+	}
+	q, isQ := v.(*ssa.BinOp)
+	if !isQ || q.Op != token.QUO {
+		return 0, 0, false
+	}
+	d, isK := constInt(q.Y)
+	if !isK || d <= 0 {
+		return 0, 0, false
+	}
+	m, isM := q.X.(*ssa.BinOp)
+	if !isM || m.Op != token.MUL {
+		return 0, 0, false
+	}
+	if k, isK := constInt(m.Y); isK && k > 0 {
+		return k, d, true
+	}
+	if k, isK := constInt(m.X); isK && k > 0 {
+		return k, d, true
+	}
+	return 0, 0, false
 }
